@@ -1,9 +1,130 @@
 import Driver.Json
-open Lean Drv
+import Model.Info
+open Lean Drv Ens Ens.Info
 
 namespace Drv.C18
 
-def handle (op : String) (_req : Json) : Except String Json :=
-  throw s!"bad-op C18.{op}"
+def errStr : Err → String
+  | .assertion => "assertion"
+  | .valueError => "value-error"
+  | .dataInvalid => "data-invalid"
+  | .overflowError => "overflow-error"
+  | .runtimeError => "runtime-error"
+
+/-- `{"rows": [[..],..], "T": n, "F": n, "dt": [bits, signed]}` -/
+def getArr2 (j : Json) : Except String Arr := do
+  let rows ← getList (getList getInt) (← field j "rows")
+  let T ← getNat (← field j "T")
+  let F ← getNat (← field j "F")
+  if rows.length ≠ T ∨ rows.any (·.length ≠ F) then throw "bad array shape"
+  let arr := (rows.map List.toArray).toArray
+  pure { T := T, F := F, get := fun t f => (arr.getD t #[]).getD f 0 }
+
+def getTArr (j : Json) : Except String TArr := do
+  let a ← getArr2 j
+  match ← getArr (← field j "dt") with
+  | [b, s] => pure { dt := { bits := ← getNat b, signed := ← getBool s }, arr := a }
+  | _ => throw "bad dtype"
+
+def getOptIntField (req : Json) (k : String) : Except String (Option Int) :=
+  match fieldOpt req k with
+  | none => pure none
+  | some v => do let i ← getInt v; pure (some i)
+
+def termJson (t : Info.Term) : Json := Json.arr #[ratJson t.1, ratJson t.2]
+
+def getStates (j : Json) : Except String (Int ⊕ List Int) :=
+  match j with
+  | .arr _ => do let l ← getList getInt j; pure (.inr l)
+  | v => do let i ← getInt v; pure (.inl i)
+
+/-- a 4-D nested list of naturals as a `JC` -/
+def getJC (j : Json) (nA nB : Nat) : Except String JC := do
+  let l ← getList (getList (getList (getList getNat))) j
+  let arr := (l.map fun r => (r.map fun t => (t.map List.toArray).toArray).toArray).toArray
+  let Fb := match l with
+    | [] => 0
+    | r :: _ => r.length
+  pure { Fa := l.length, Fb := Fb, nA := nA, nB := nB,
+         cnt := fun x y i j => if i < 0 ∨ j < 0 then 0 else
+           ((((arr.getD x #[]).getD y #[]).getD i.toNat #[]).getD j.toNat 0) }
+
+def jcResp (r : Except Err JC) : Json :=
+  match r with
+  | .error e => errJson (errStr e)
+  | .ok j => okJson (listJson (listJson (listJson (listJson natJson))) j.toLists)
+
+def handle (op : String) (req : Json) : Except String Json := do
+  match op with
+  | "jc" =>
+    -- joint_counts(X, Y, n_x, n_y)
+    let X ← getTArr (← field req "X")
+    let Y ← match fieldOpt req "Y" with
+      | none => pure none
+      | some y => do let y ← getTArr y; pure (some y)
+    let nx ← getOptIntField req "n_x"
+    let ny ← getOptIntField req "n_y"
+    pure (jcResp (jointCounts X Y nx ny))
+  | "bincount" =>
+    -- libinfo.matrix_bincount2d(a, b, n_a, n_b), optionally under a schedule of the prange
+    let a ← getTArr (← field req "a")
+    let b ← getTArr (← field req "b")
+    let na ← getInt (← field req "n_a")
+    let nb ← getInt (← field req "n_b")
+    match fieldOpt req "choices" with
+    | none => pure (jcResp (matrixBincount2dTyped a b na nb))
+    | some c =>
+      let choices ← getList getNat c
+      pure (jcResp (matrixBincount2dSched choices a.arr b.arr na nb))
+  | "mi" =>
+    let na ← getNat (← field req "n_a")
+    let nb ← getNat (← field req "n_b")
+    let jc ← getJC (← field req "jc") na nb
+    pure (okJson (listJson (listJson (listJson termJson)) (mutualInformationTerms jc)))
+  | "mi_matrix" =>
+    let trajs ← getList (fun j => do
+      let x ← getTArr (← field j "X")
+      let y ← getTArr (← field j "Y")
+      pure (x, y)) (← field req "trajs")
+    let nx ← getInt (← field req "n_x")
+    let ny ← getInt (← field req "n_y")
+    match miMatrixCounts trajs nx ny with
+    | .error e => pure (errJson (errStr e))
+    | .ok jc => pure (okJson (Json.mkObj [
+        ("jc", listJson (listJson (listJson (listJson natJson))) jc.toLists),
+        ("terms", listJson (listJson (listJson termJson)) (mutualInformationTerms jc))]))
+  | "entropy" =>
+    let p ← getList getRat (← field req "p")
+    let nz ← getBool (← field req "normalize")
+    match entropyTerms p nz with
+    | .error e => pure (errJson (errStr e))
+    | .ok ts => pure (okJson (listJson termJson ts))
+  | "kl" =>
+    let P ← getList getRat (← field req "P")
+    let Q ← getList getRat (← field req "Q")
+    match klTerms P Q with
+    | .error e => pure (errJson (errStr e))
+    | .ok .inf => pure (okJson (Json.str "inf"))
+    | .ok (.terms ts) => pure (okJson (listJson termJson ts))
+  | "ccn" =>
+    let rows ← getNat (← field req "rows")
+    let cols ← getNat (← field req "cols")
+    let nx ← getStates (← field req "n_x")
+    let ny ← getStates (← field req "n_y")
+    match channelCapacityArgs rows cols nx ny with
+    | .error e => pure (errJson (errStr e))
+    | .ok g => pure (okJson (listJson (listJson intJson) g))
+  | "wmi" =>
+    let X ← getArr2 (← field req "X")
+    let w ← getList getRat (← field req "w")
+    let nfs ← match fieldOpt req "nfs" with
+      | none => pure none
+      | some j => do let l ← getList getInt j; pure (some l)
+    match weightedMi X w nfs with
+    | .error e => pure (errJson (errStr e))
+    | .ok r => pure (okJson (Json.mkObj [
+        ("terms", listJson (listJson (listJson termJson)) r.terms),
+        ("states", listJson intJson r.states)]))
+  | _ => throw s!"bad-op C18.{op}"
 
 end Drv.C18
